@@ -80,9 +80,8 @@ def sourceKey (source : List Elem) (idx : Int) : R Int :=
 `starts[iam] + equally_split(length_local, num_samples+1)[i+1]`), then the barrier's `std::sort` -/
 def sortedSamples (lt : Int → Int → Bool) (source : List Elem) (starts : List Nat) (p ns : Nat) : R (List Int) := do
   let rows ← (List.range p).mapM (fun iam =>
-    (List.range ns).mapM (fun i =>
-      sourceKey source ((starts.getD iam 0 : Nat) +
-        (equallySplit ((starts.getD (iam + 1) 0 - starts.getD iam 0 : Nat) : Int) (ns + 1)).getD (i + 1) 0)))
+    let es := equallySplit ((starts.getD (iam + 1) 0 - starts.getD iam 0 : Nat) : Int) (ns + 1)
+    (List.range ns).mapM (fun i => sourceKey source ((starts.getD iam 0 : Nat) + es.getD (i + 1) 0)))
   pure (sortKeys lt rows.flatten)
 
 /-- sampling splitting: the end offsets of every thread's pieces (`lower_bound` of
